@@ -149,3 +149,80 @@ theorem blockLoop_ok : ∀ (al : Align) (b : BSt),
           · exact hne'
 
 end Wrap
+
+namespace Wrap
+
+theorem blockStep_exp {b b' : BSt} {e : Option Nat × Option Nat} (h : blockStep b e = .ok b') :
+    b'.mExp = b.mExp + (if e.1.isSome then 1 else 0) ∧ b'.pExp = b.pExp + (if e.2.isSome then 1 else 0) := by
+  obtain ⟨m, p⟩ := e
+  cases m <;> cases p <;> simp only [blockStep] at h
+  · cases h
+  · split at h
+    · cases h
+    · split at h
+      · cases h
+      · cases h; simp
+  · split at h
+    · cases h
+    · split at h
+      · cases h
+      · cases h; simp
+  · split at h
+    · cases h
+    · split at h
+      · cases h
+      · split at h
+        · cases h
+        · split at h
+          · cases h
+          · cases h; simp
+
+theorem blockLoop_exp : ∀ (al : Align) (b b' : BSt), blockLoop b al = .ok b' →
+    b'.mExp = b.mExp + (al.filterMap (·.1)).length ∧ b'.pExp = b.pExp + (al.filterMap (·.2)).length := by
+  intro al
+  induction al with
+  | nil => intro b b' h; simp [blockLoop] at h; subst h; simp
+  | cons e es ih =>
+    intro b b' h
+    unfold blockLoop at h
+    split at h
+    · cases h
+    · rename_i b2 hb2
+      obtain ⟨h1, h2⟩ := blockStep_exp hb2
+      obtain ⟨k1, k2⟩ := ih b2 b' h
+      obtain ⟨m, p⟩ := e
+      cases m <;> cases p <;> simp_all <;> omega
+
+/-- Rows of the expanded alignment: every row index once per side, in order; the states are
+the per-line state blocks in line order. -/
+theorem block_rows {al : Align} {mc pc : List Nat} {al' : Align} {ms ps : List Bool}
+    (h : wrapBlock al mc pc = .ok (al', ms, ps)) :
+    al'.filterMap (·.1) = List.range ms.length ∧
+    al'.filterMap (·.2) = List.range ps.length ∧
+    ms = (mc.take (al.filterMap (·.1)).length).flatMap lineStates ∧
+    ps = (pc.take (al.filterMap (·.2)).length).flatMap lineStates := by
+  unfold wrapBlock at h
+  split at h
+  · cases h
+  · rename_i bf hbf
+    cases h
+    have hi := bInv_loop al _ _ (bInv_init mc pc) hbf
+    obtain ⟨e1, e2⟩ := blockLoop_exp al _ _ hbf
+    simp only [initB, Nat.zero_add] at e1 e2
+    refine ⟨?_, ?_, ?_, ?_⟩
+    · rw [hi.alm, hi.ms, flatMap_lineStates_length, hi.mOff]
+    · rw [hi.alp, hi.ps, flatMap_lineStates_length, hi.pOff]
+    · rw [hi.ms, e1]
+    · rw [hi.ps, e2]
+
+theorem wrapBlock_ok {al : Align} {mc pc : List Nat} (hv : ValidAlign al mc.length pc.length) :
+    ∃ r, wrapBlock al mc pc = .ok r := by
+  obtain ⟨b, hb⟩ := blockLoop_ok al (initB mc pc)
+    (by simp only [initB]; rw [hv.minus, List.range_eq_range'])
+    (by simp only [initB]; rw [hv.plus, List.range_eq_range'])
+    hv.noEmpty
+  unfold wrapBlock
+  rw [hb]
+  exact ⟨_, rfl⟩
+
+end Wrap
